@@ -75,7 +75,15 @@ struct Task {
   int prio = 0;
   // Thread-local storage of this simulated thread (library built with -femulated-tls; see __wrap___emutls_get_address).
   struct SbEntry { volatile void* addr; uint64_t val; int size; int mo; int ttl; };
-  std::vector<SbEntry> sb;      // store buffer (see SchedConfig::store_buffer)
+  struct SbBuf {                // store buffer (see SchedConfig::store_buffer): fixed storage, so that the wrappers that run in
+    SbEntry e[16];              // the middle of instrumented library code never call the allocator (ThreadSanitizer would take the
+    size_t n = 0;               // harness's own allocations for the library's)
+    bool empty() const { return n == 0; }
+    size_t size() const { return n; }
+    SbEntry& operator[](size_t i) { return e[i]; }
+    void push_back(const SbEntry& x) { if (n < 16) e[n++] = x; }
+    void drop_front(size_t k) { for (size_t i = k; i < n; ++i) e[i - k] = e[i]; n -= k; }
+  } sb;
   char scope[48];               // stack of 'L' (inside library code) / 'H' (inside harness code called from it)
   int scope_sp = 0;
   std::vector<std::pair<void*, void*>> tls;                       // emutls control object -> this task's instance
@@ -670,6 +678,7 @@ static bool sb_lookup(const volatile void* a, int size, uint64_t* v) {
     if (sb_on() && mo != kSeqCst) {                                                                      \
       sim::g->sb_rng = sim::g->sb_rng * 6364136223846793005ULL + 1442695040888963407ULL;                \
       int ttl = static_cast<int>((sim::g->sb_rng >> 33) % static_cast<uint64_t>(sim::g->cfg->sb_ttl_max + 1)); \
+      if (sim::g->tasks[sim::g->cur]->sb.size() >= 15) sim::sb_flush_current();   /* never lose a store */     \
       sim::g->tasks[sim::g->cur]->sb.push_back({a, static_cast<uint64_t>(v), N, mo, ttl});               \
       sim::g->res->sb_buffered++;                                                                        \
       return;                                                                                            \
@@ -738,9 +747,11 @@ void sb_flush_prefix(size_t n) {
   auto& sb = g->tasks[g->cur]->sb;
   if (sb.empty()) return;
   if (n > sb.size()) n = sb.size();
-  std::vector<Task::SbEntry> pending(sb.begin(), sb.begin() + static_cast<long>(n));
-  sb.erase(sb.begin(), sb.begin() + static_cast<long>(n));
-  for (const auto& e : pending) {
+  Task::SbEntry pending[16];
+  for (size_t i = 0; i < n; ++i) pending[i] = sb[i];
+  sb.drop_front(n);
+  for (size_t pi = 0; pi < n; ++pi) {
+    const Task::SbEntry& e = pending[pi];
     switch (e.size) {
       case 8: __real___tsan_atomic8_store(static_cast<volatile unsigned char*>(e.addr), static_cast<unsigned char>(e.val), e.mo); break;
       case 16: __real___tsan_atomic16_store(static_cast<volatile unsigned short*>(e.addr), static_cast<unsigned short>(e.val), e.mo); break;
